@@ -39,6 +39,20 @@ CHECKS = {
             "the usage protocol is the one InferenceCtx::finish follows; histories recorded from real compilations are replayed in the pipeline part",
             "runtime monitoring: lock-step reference-model monitor over enumerated and random operation histories",
             "probe", "4/C26"),
+    "C17": ("exploration",
+            "the real calc_layouts/GetLayoutInfo (hook H1) is run on a type universe that is exhaustive for unary constructors to depth 2 and for "
+            "struct/enum shapes of <= 3 members over representative member types, sampled beyond (depth 3), for pointer widths 64 and 32; every "
+            "observed layout is judged by the statement's rules, and flat structs of C scalars are compared with gcc's offsetof/sizeof/_Alignof.",
+            "trusts gcc -O0 as the C layout reference and the probe's type construction (realisable types only)",
+            "runtime monitoring: invariant predicates on hooked layout tables + differential check against the host C compiler",
+            "probe", "4/C17"),
+    "C27": ("exploration",
+            "the real mangler (hook H1) is run on all entity descriptors over paths of <= 3 components from a hostile name pool (digits, dots, "
+            "dashes, src, x.capy), under cwd and module dir, with all id combinations on a few paths and random descriptors; an inverse map "
+            "detects any two descriptors sharing a symbol; three collision classes are recorded as known findings, two were repaired.",
+            "descriptors are constructed directly (no compilation); realisability assumptions listed in the evidence",
+            "runtime monitoring: injectivity monitor (inverse map) over enumerated inputs of the hooked mangler",
+            "probe", "4/C27"),
 }
 
 NOT_YET = "check not built yet in this round (work in progress; see DESIGN.md section 4 for the plan)"
